@@ -1,15 +1,438 @@
-//! Extension `undo` of the Yata executor (see ext/mod.rs for the contract).
-use crate::yata::World;
-use serde_json::Value;
+//! Extension `undo` of the Yata executor (see ext/mod.rs for the contract) -- property C12.
+//!
+//! Configuration `cfg.undo = {"r": <replica>, "scope": ["t"|"a"|"m", ...], "origin": "U" | "", "timeout": 500}`:
+//! replica `r` gets an `UndoManager` over the listed root types.  `origin` = tracked transaction origin
+//! ("" = the manager tracks transactions WITHOUT origin, the library's default rule).  The manager's clock
+//! is controlled: it only moves by `tick` steps, so capture grouping is deterministic.
+//! Without `cfg.undo` (seeded random driver) the configuration is drawn from the behaviour's seed.
+//!
+//! Steps owned by this extension
+//!   {"a":"tick","ms":N}                       advance the manager's clock
+//!   {"a":"ustop","r":r}                       UndoManager::reset() (stop capturing into the current stack item)
+//!   {"a":"undo","r":r} / {"a":"redo","r":r}   undo_blocking() / redo_blocking(); a local transaction: the event has the
+//!                                             fields of World::local (`k:"loc"`, upd, obs, nev, ...) plus `ret`
+//!   {"a":"uop","op":"ins|del|set|rem", ...}   a local step whose address is resolved against the CURRENT visible state
+//!                                             (index clamped, "#j" = j-th nested container, inapplicable -> `unop` event);
+//!                                             executed through World::local (event `k:"loc"`, `call` = resolved step)
+//! Every update slot is used (an inapplicable `uop` pushes an empty update) so that slot numbers are static.
+//!
+//! Every event of the behaviour additionally carries (after_step):
+//!   uc    = {"r","scope","origin","timeout"}          the manager's configuration
+//!   us,rs = undo_stack().len(), redo_stack().len()
+//!   uv    = {"t": <canonical content string>, "a": .., "m": ..}   content of r's three root types (by VALUE, not by id)
+//!   uclk  = current value of the controlled clock
+//!   croot = {container key: root name} for every container known so far
+//!   vv    = comparison key for repeated executions of the same schedule (content by value, stack lengths, return value)
+use crate::obs;
+use crate::yata::{panic_msg, World};
+use serde_json::{json, Map as JMap, Value};
+use std::collections::{HashMap, HashSet};
+use std::panic::{catch_unwind, AssertUnwindSafe};
+use std::sync::atomic::{AtomicU64, Ordering};
+use std::sync::Arc;
+use yrs::undo::{Options as UndoOptions, UndoManager};
+use yrs::{Array, GetString, Map, Out, ReadTxn, Transact};
 
-pub fn init(_w: &mut World) {}
-
-pub fn step(_w: &mut World, _st: &Value) -> Option<Value> {
-    None
+pub struct UndoExt {
+    pub r: u64,
+    pub scope: Vec<String>,
+    pub origin: String,
+    pub timeout: u64,
+    pub clock: Arc<AtomicU64>,
+    pub mgr: UndoManager<()>,
+    /// value tag -> every element id that ever carried it (redo re-creates an element's content under a new id, so a
+    /// value no longer identifies ONE element; `fix_pub` picks the id that is listed and alive in the observed replica)
+    pub same: HashMap<String, Vec<(u64, u32)>>,
 }
 
-pub fn after_step(_w: &mut World, _st: &Value, _ev: &mut Value) {}
+fn take(w: &mut World) -> Option<Box<UndoExt>> {
+    w.ext.remove("undo").and_then(|b| b.downcast::<UndoExt>().ok())
+}
+fn put(w: &mut World, u: Box<UndoExt>) {
+    w.ext.insert("undo".to_string(), u);
+}
 
-pub fn random_step(_w: &mut World, _authors: &[u64], _all: &[u64]) -> Option<Value> {
-    None
+pub fn init(w: &mut World) {
+    let c = w.cfg["undo"].clone();
+    let (r, scope, origin, timeout) = if c.is_object() {
+        (
+            c["r"].as_u64().unwrap_or(1),
+            c["scope"].as_array().map(|a| a.iter().filter_map(|x| x.as_str().map(|s| s.to_string())).collect()).unwrap_or_else(|| vec!["t".to_string()]),
+            c["origin"].as_str().unwrap_or("").to_string(),
+            c["timeout"].as_u64().unwrap_or(500),
+        )
+    } else {
+        // seeded random driver: replica 1, scope drawn from the seed, transactions without origin are tracked
+        let scopes: [&[&str]; 6] = [&["t"], &["a"], &["m"], &["t", "m"], &["a", "m"], &["t", "a", "m"]];
+        let s = scopes[w.rng.below(scopes.len() as u64) as usize];
+        (1u64, s.iter().map(|x| x.to_string()).collect::<Vec<String>>(), String::new(), 500u64)
+    };
+    if !w.reps.iter().any(|x| x.id == r) {
+        return;
+    }
+    let ri = w.rep(r);
+    let clock = Arc::new(AtomicU64::new(1000));
+    let c2 = clock.clone();
+    let mut o: UndoOptions<()> = UndoOptions::default();
+    o.capture_timeout_millis = timeout;
+    o.timestamp = Arc::new(move || c2.load(Ordering::SeqCst));
+    let mut mgr: UndoManager<()> = UndoManager::with_options(o);
+    let doc = w.reps[ri].doc.clone();
+    for s in &scope {
+        match s.as_str() {
+            "t" => {
+                let t = doc.get_or_insert_text("t");
+                mgr.expand_scope(&doc, &t);
+            }
+            "a" => {
+                let a = doc.get_or_insert_array("a");
+                mgr.expand_scope(&doc, &a);
+            }
+            "m" => {
+                let m = doc.get_or_insert_map("m");
+                mgr.expand_scope(&doc, &m);
+            }
+            _ => {}
+        }
+    }
+    if !origin.is_empty() {
+        mgr.include_origin(origin.as_str());
+    }
+    put(w, Box::new(UndoExt { r, scope, origin, timeout, clock, mgr, same: HashMap::new() }));
+}
+
+// -------------------------------------------------------------------------------------------------
+// canonical content (by value) of a root type, read through the public API
+
+fn render<T: ReadTxn>(txn: &T, o: &Out, depth: usize) -> String {
+    if depth > 12 {
+        return "?deep".into();
+    }
+    match o {
+        Out::Any(a) => obs::any_tag(a),
+        Out::YText(t) => format!("\"{}\"", t.get_string(txn)),
+        Out::YArray(a) => {
+            let items: Vec<String> = a.iter(txn).map(|v| render(txn, &v, depth + 1)).collect();
+            format!("[{}]", items.join(","))
+        }
+        Out::YMap(m) => {
+            let mut es: Vec<(String, String)> = m.iter(txn).map(|(k, v)| (k.to_string(), render(txn, &v, depth + 1))).collect();
+            es.sort();
+            let items: Vec<String> = es.into_iter().map(|(k, v)| format!("{}:{}", k, v)).collect();
+            format!("{{{}}}", items.join(","))
+        }
+        _ => "?".into(),
+    }
+}
+
+fn views(w: &World, ri: usize) -> Value {
+    let txn = w.reps[ri].doc.transact();
+    let t = txn.get_text("t").map(|t| render(&txn, &Out::YText(t), 0)).unwrap_or_default();
+    let a = txn.get_array("a").map(|a| render(&txn, &Out::YArray(a), 0)).unwrap_or_default();
+    let m = txn.get_map("m").map(|m| render(&txn, &Out::YMap(m), 0)).unwrap_or_default();
+    json!({"t": t, "a": a, "m": m})
+}
+
+fn root_of(w: &World, cont: &str) -> String {
+    let mut key = cont.to_string();
+    for _ in 0..16 {
+        let head = key.split('|').next().unwrap_or("").to_string();
+        if !head.contains(':') {
+            return head;
+        }
+        let mut it = head.split(':');
+        let c: u64 = it.next().and_then(|x| x.parse().ok()).unwrap_or(0);
+        let k: u32 = it.next().and_then(|x| x.parse().ok()).unwrap_or(0);
+        match w.known.get(&(c, k)) {
+            Some((pc, _, _)) => key = pc.clone(),
+            None => return "?".into(),
+        }
+    }
+    "?".into()
+}
+
+fn idof(v: &Value) -> (u64, u32) {
+    (v[0].as_u64().unwrap_or(0), v[1].as_u64().unwrap_or(0) as u32)
+}
+
+/// public view of one observation: ids recovered from value tags are ambiguous between an element and its re-created
+/// copies; choose the one that is listed and alive in the same container of the same observation (if unique)
+fn fix_pub(o: &mut Value, classes: &HashMap<(u64, u32), usize>, groups: &[Vec<(u64, u32)>]) {
+    if !o["pub"].is_object() {
+        return;
+    }
+    let dead: HashSet<(u64, u32)> = o["dead"].as_array().map(|a| a.iter().map(idof).collect()).unwrap_or_default();
+    let lst = o["lst"].clone();
+    let Some(p) = o["pub"].as_object_mut() else { return };
+    for (cont, ids) in p.iter_mut() {
+        let listed: HashSet<(u64, u32)> = lst[cont.as_str()].as_array().map(|a| a.iter().map(idof).collect()).unwrap_or_default();
+        if let Some(arr) = ids.as_array_mut() {
+            for x in arr.iter_mut() {
+                let id = idof(x);
+                if let Some(g) = classes.get(&id) {
+                    let c: Vec<&(u64, u32)> = groups[*g].iter().filter(|y| listed.contains(y) && !dead.contains(y)).collect();
+                    if c.len() == 1 {
+                        *x = json!([c[0].0, c[0].1]);
+                    }
+                }
+            }
+        }
+    }
+}
+
+pub fn after_step(w: &mut World, _st: &Value, ev: &mut Value) {
+    let Some(mut u) = take(w) else { return };
+    let ri = w.rep(u.r);
+    // value tags that moved to another id since the last event: the two ids carry the same content
+    for (tag, id) in w.tags.by_tag.iter() {
+        let e = u.same.entry(tag.clone()).or_default();
+        if !e.contains(id) {
+            e.push(*id);
+        }
+    }
+    let groups: Vec<Vec<(u64, u32)>> = u.same.values().filter(|v| v.len() > 1).cloned().collect();
+    if !groups.is_empty() {
+        let mut classes = HashMap::new();
+        for (i, g) in groups.iter().enumerate() {
+            for id in g {
+                classes.insert(*id, i);
+            }
+        }
+        for key in ["obs", "fobs"] {
+            if ev.get(key).is_some() {
+                fix_pub(&mut ev[key], &classes, &groups);
+            }
+        }
+        if ev.get("fol").map(|f| f.get("v1").is_some()).unwrap_or(false) {
+            fix_pub(&mut ev["fol"]["v1"], &classes, &groups);
+            fix_pub(&mut ev["fol"]["v2"], &classes, &groups);
+        }
+    }
+    let mut croot = JMap::new();
+    let mut conts: Vec<String> = w.known.values().map(|v| v.0.clone()).collect();
+    conts.sort();
+    conts.dedup();
+    for c in conts {
+        let r = root_of(w, &c);
+        croot.insert(c, json!(r));
+    }
+    if let Some(o) = ev.as_object_mut() {
+        o.insert("uc".into(), json!({"r": u.r, "scope": u.scope, "origin": u.origin, "timeout": u.timeout}));
+        o.insert("us".into(), json!(u.mgr.undo_stack().len()));
+        o.insert("rs".into(), json!(u.mgr.redo_stack().len()));
+        o.insert("uclk".into(), json!(u.clock.load(Ordering::SeqCst)));
+        o.insert("uv".into(), views(w, ri));
+        o.insert("croot".into(), Value::Object(croot));
+        // comparison key for repeated executions: content by value (ids of re-created elements are not an outcome)
+        let acting = o.get("r").and_then(|x| x.as_u64()).or_else(|| o.get("t").and_then(|x| x.as_u64()));
+        let av = match acting {
+            Some(a) if w.reps.iter().any(|x| x.id == a) => views(w, w.rep(a)),
+            _ => json!({}),
+        };
+        let key = json!({"uv": o.get("uv"), "av": av, "us": o.get("us"), "rs": o.get("rs"), "ret": o.get("ret"), "outcome": o.get("outcome"), "k": o.get("k")});
+        o.insert("vv".into(), json!(key.to_string()));
+    }
+    put(w, u);
+}
+
+// -------------------------------------------------------------------------------------------------
+// steps
+
+fn empty_v2() -> Vec<u8> {
+    use yrs::updates::encoder::Encode;
+    yrs::Update::default().encode_v2()
+}
+
+fn placeholder(w: &mut World, r: u64) {
+    w.log.push((r, vec![0, 0], empty_v2()));
+}
+
+fn pop(w: &mut World, st: &Value, undo: bool) -> Value {
+    let Some(mut u) = take(w) else {
+        return json!({"k": "bad", "why": "no undo manager"});
+    };
+    let r = u.r;
+    let ri = w.rep(r);
+    // the stacks before the call (id sets of every stack item) -- diagnostic context for known-finding patterns
+    let stk = json!({"u": stack_json(u.mgr.undo_stack()), "r": stack_json(u.mgr.redo_stack())});
+    let res = catch_unwind(AssertUnwindSafe(|| if undo { u.mgr.undo_blocking() } else { u.mgr.redo_blocking() }));
+    let (outcome, ret) = match res {
+        Ok(b) => ("ok".to_string(), b),
+        Err(p) => (format!("panic: {}", panic_msg(&p)), false),
+    };
+    put(w, u);
+    let (v1, v2) = w.drain(ri);
+    let (upd, mut problems) = w.emitted(&v1, &v2);
+    // one update slot per call; several update events (never seen) are merged into the slot
+    let m1 = match v1.len() {
+        0 => vec![0, 0],
+        1 => v1[0].clone(),
+        _ => yrs::merge_updates_v1(v1.iter()).unwrap_or_else(|e| {
+            problems.push(format!("merge of undo updates: {}", e));
+            vec![0, 0]
+        }),
+    };
+    let m2 = match v2.len() {
+        0 => empty_v2(),
+        1 => v2[0].clone(),
+        _ => yrs::merge_updates_v2(v2.iter()).unwrap_or_else(|e| {
+            problems.push(format!("merge of undo updates (v2): {}", e));
+            empty_v2()
+        }),
+    };
+    w.log.push((r, m1, m2));
+    json!({
+        "k": "loc", "r": r, "call": st, "cont": "", "outcome": outcome, "ret": ret, "stk": stk,
+        "upd": upd, "nev": [v1.len(), v2.len()], "wire": problems.join("; "),
+        "obs": w.observe(ri), "hasfol": w.followers, "fol": w.fol_obs(ri),
+    })
+}
+
+fn idset_json(s: &yrs::IdSet) -> Value {
+    let mut v: Vec<(u64, u32, u32)> = Vec::new();
+    for (c, ranges) in s.iter() {
+        for r in ranges.iter() {
+            v.push((c.get(), r.start, r.end));
+        }
+    }
+    v.sort();
+    json!(v.iter().map(|x| json!([x.0, x.1, x.2])).collect::<Vec<_>>())
+}
+
+fn stack_json(st: &[yrs::undo::StackItem<()>]) -> Value {
+    json!(st.iter().map(|i| json!({"ins": idset_json(i.insertions()), "del": idset_json(i.deletions())})).collect::<Vec<_>>())
+}
+
+enum Tgt {
+    Text(u32),
+    Array(u32),
+    Map(Vec<String>),
+}
+
+/// resolves an abstract address against the current visible state of replica `ri`
+fn resolve(w: &World, ri: usize, path: &[String]) -> Option<(Vec<String>, Tgt)> {
+    let txn = w.reps[ri].doc.transact();
+    let mut cur: Out = match path.first()?.as_str() {
+        "t" => Out::YText(txn.get_text("t")?),
+        "a" => Out::YArray(txn.get_array("a")?),
+        "m" => Out::YMap(txn.get_map("m")?),
+        _ => return None,
+    };
+    let mut real = vec![path[0].clone()];
+    for seg in &path[1..] {
+        if let Some(j) = seg.strip_prefix('#') {
+            let j: usize = j.parse().ok()?;
+            let Out::YArray(a) = &cur else { return None };
+            // "#j": the j-th nested container (counted cyclically among the containers present)
+            let cs: Vec<(usize, Out)> = a.iter(&txn).enumerate().filter(|(_, v)| matches!(v, Out::YArray(_) | Out::YMap(_) | Out::YText(_))).collect();
+            if cs.is_empty() {
+                return None;
+            }
+            let (ix, v) = cs[j % cs.len()].clone();
+            real.push(format!("#{}", ix));
+            cur = v;
+        } else {
+            let Out::YMap(m) = &cur else { return None };
+            let v = m.get(&txn, seg)?;
+            if !matches!(v, Out::YArray(_) | Out::YMap(_) | Out::YText(_)) {
+                return None;
+            }
+            real.push(seg.clone());
+            cur = v;
+        }
+    }
+    let t = match &cur {
+        Out::YText(t) => Tgt::Text(t.get_string(&txn).chars().count() as u32),
+        Out::YArray(a) => Tgt::Array(a.len(&txn)),
+        Out::YMap(m) => {
+            let mut ks: Vec<String> = m.keys(&txn).map(|k| k.to_string()).collect();
+            ks.sort();
+            Tgt::Map(ks)
+        }
+        _ => return None,
+    };
+    Some((real, t))
+}
+
+fn uop(w: &mut World, st: &Value) -> Value {
+    let r = st["r"].as_u64().unwrap_or(1);
+    let ri = w.rep(r);
+    let op = st["op"].as_str().unwrap_or("").to_string();
+    let path: Vec<String> = st["p"].as_array().map(|v| v.iter().filter_map(|x| x.as_str().map(|s| s.to_string())).collect()).unwrap_or_default();
+    let i = st["i"].as_u64().unwrap_or(0) as u32;
+    let n = st["n"].as_u64().unwrap_or(1).max(1) as u32;
+    let key = st["key"].as_str().unwrap_or("").to_string();
+    let k = st["k"].as_str().unwrap_or("u").to_string();
+    let o = st["o"].as_str().unwrap_or("").to_string();
+    let resolved: Option<Value> = match resolve(w, ri, &path) {
+        None => None,
+        Some((real, tgt)) => match (tgt, op.as_str()) {
+            (Tgt::Text(len), "ins") => Some(json!({"a": "ins", "r": r, "p": real, "i": i.min(len), "n": n, "k": "u", "o": o})),
+            (Tgt::Array(len), "ins") => Some(json!({"a": "ins", "r": r, "p": real, "i": i.min(len), "n": if k == "u" { n } else { 1 }, "k": if real.len() == 1 { k.as_str() } else { "u" }, "o": o})),
+            (Tgt::Text(len), "del") | (Tgt::Array(len), "del") if len > 0 => {
+                let i2 = i.min(len - 1);
+                Some(json!({"a": "del", "r": r, "p": real, "i": i2, "n": n.min(len - i2), "o": o}))
+            }
+            (Tgt::Map(_), "set") => Some(json!({"a": "set", "r": r, "p": real, "key": key, "k": if real.len() == 1 { k.as_str() } else { "u" }, "o": o})),
+            (Tgt::Map(ks), "rem") if ks.contains(&key) => Some(json!({"a": "rem", "r": r, "p": real, "key": key, "o": o})),
+            _ => None,
+        },
+    };
+    match resolved {
+        Some(s) => {
+            let mut ev = w.local(&s);
+            if let Some(o) = ev.as_object_mut() {
+                o.insert("asked".into(), st.clone());
+            }
+            ev
+        }
+        None => {
+            placeholder(w, r);
+            json!({"k": "unop", "r": r, "call": st})
+        }
+    }
+}
+
+pub fn step(w: &mut World, st: &Value) -> Option<Value> {
+    if !w.ext.contains_key("undo") {
+        return None;
+    }
+    match st["a"].as_str().unwrap_or("") {
+        "tick" => {
+            let ms = st["ms"].as_u64().unwrap_or(0);
+            let u = take(w)?;
+            u.clock.fetch_add(ms, Ordering::SeqCst);
+            put(w, u);
+            Some(json!({"k": "tick", "ms": ms}))
+        }
+        "ustop" => {
+            let mut u = take(w)?;
+            u.mgr.reset();
+            put(w, u);
+            Some(json!({"k": "ustop"}))
+        }
+        "undo" => Some(pop(w, st, true)),
+        "redo" => Some(pop(w, st, false)),
+        "uop" => Some(uop(w, st)),
+        _ => None,
+    }
+}
+
+pub fn random_step(w: &mut World, _authors: &[u64], _all: &[u64]) -> Option<Value> {
+    let r = {
+        let u = take(w)?;
+        let r = u.r;
+        put(w, u);
+        r
+    };
+    let roll = w.rng.below(100);
+    Some(if roll < 30 {
+        json!({"a": "tick", "ms": if w.rng.chance(1, 2) { 600 } else { 200 }})
+    } else if roll < 65 {
+        json!({"a": "undo", "r": r})
+    } else if roll < 92 {
+        json!({"a": "redo", "r": r})
+    } else {
+        json!({"a": "ustop", "r": r})
+    })
 }
